@@ -182,12 +182,13 @@ Proof.
   unfM. mrun. reflexivity.
 Qed.
 
-(* ---- the EOF PDU before the Metadata PDU *)
+(* ---- the EOF PDU before the Metadata PDU; only an EOF (no error) takes this path: an EOF (cancel) received before the
+   Metadata PDU is handled like any other EOF (cancel) (F32 repair, lemma heof_nomd_cancel) *)
 Definition lgE (lg : list event) : list event := (if l_ind_eof_recv cd then [EvEofRecv srcid seq] else []) ++ lg.
 
 Lemma heof_nomd : forall step cks prog0 ck0 eof0 tr0 ls le lg tr,
   (if 0 <? fsz then add (0, fsz) LostSeg.reset else tr0) = tr ->
-  handle_eof_without_previous_metadata cks fsz (dM step 0 [] (dpM prog0 ck0 eof0 tr0 ls le false None) lg) =
+  handle_eof_without_previous_metadata C_NO_ERROR cks fsz (dM step 0 [] (dpM prog0 ck0 eof0 tr0 ls le false None) lg) =
     (dM DS_SENDING_EOF_ACK 1 [ackE'] (dpM fsz cks (Some fsz) tr ls le false None) (lgE lg), Ok tt).
 Proof.
   intros step cks prog0 ck0 eof0 tr0 ls le lg tr Htr. unfold handle_eof_without_previous_metadata, lgE. unfM. mrun.
@@ -195,10 +196,17 @@ Proof.
   (destruct (l_ind_eof_recv cd); unfold tid_or_assert; mrun; unfold prepare_eof_ack_packet, conf, add_packet; mrun; reflexivity).
 Qed.
 
-Lemma sm_eof_wm : forall c cks fl prog lg, 0 < fsz ->
-  Dest.state_machine (Some (PEof hA' c cks fsz fl)) (WM 0 [] prog lg) = (WE 1 [ackE'] cks [(0, fsz)] prog (lgE lg), Ok tt).
+Lemma heof_nomd_cancel : forall c cks sz, c <> C_NO_ERROR ->
+  handle_eof_without_previous_metadata c cks sz = handle_eof_pdu c cks sz.
 Proof.
-  intros c cks fl prog lg Hpos.
+  intros c cks sz Hc. unfold handle_eof_without_previous_metadata.
+  destruct (c =? C_NO_ERROR) eqn:E; [apply Z.eqb_eq in E; contradiction | reflexivity].
+Qed.
+
+Lemma sm_eof_wm : forall cks fl prog lg, 0 < fsz ->
+  Dest.state_machine (Some (PEof hA' C_NO_ERROR cks fsz fl)) (WM 0 [] prog lg) = (WE 1 [ackE'] cks [(0, fsz)] prog (lgE lg), Ok tt).
+Proof.
+  intros cks fl prog lg Hpos.
   assert (E : (0 <? fsz) = true) by (apply Z.ltb_lt; exact Hpos).
   nifM. unfold handle_waiting_for_missing_metadata.
   etransitivity; [apply b_assoc|].
@@ -209,10 +217,10 @@ Proof.
 Qed.
 
 (* an empty file: the EOF PDU starts the transaction *)
-Lemma sm_eof_idle : forall c cks fl, (0 <? fsz) = false ->
-  Dest.state_machine (Some (PEof hA' c cks fsz fl)) (dst_init cd) = (WE 1 [ackE'] cks [] 0 (lgE []), Ok tt).
+Lemma sm_eof_idle : forall cks fl, (0 <? fsz) = false ->
+  Dest.state_machine (Some (PEof hA' C_NO_ERROR cks fsz fl)) (dst_init cd) = (WE 1 [ackE'] cks [] 0 (lgE []), Ok tt).
 Proof.
-  intros c cks fl E. rewrite sm_idle by (try reflexivity; right; repeat eexists).
+  intros cks fl E. rewrite sm_idle by (try reflexivity; right; repeat eexists).
   unfold catch_abandoned; apply catch_ok. unfold idle_fsm.
   etransitivity; [apply b_assoc|]. etransitivity; [apply b_assoc|].
   rw_m (idle_start hA' eq_refl).
@@ -948,7 +956,7 @@ Proof.
   destruct (step_final_m cs p rs fss data cks cf seg clo (tidA cf) sn [x] Hnames Hlook Hm Hck Hacks s HI') as (s' & sb & P & HT).
   rewrite eofq in P.
   assert (E : (0 <? fsz) = false) by (apply Z.ltb_ge; lia).
-  pose proof (RC sm_eof_idle fsz Hrem C_NO_ERROR cks None E) as Hsm.
+  pose proof (RC sm_eof_idle fsz Hrem cks None E) as Hsm.
   assert (G : dguard eofX' (dst_init cd) []) by (split; reflexivity).
   destruct (round_n1 fl0 s s' _ _ _ _ _ 1 c2 rnd scur None sdone [] P eq_refl (ff_none 0 1 ltac:(lia)) (ff1 0) G Hsm eq_refl
               (Forall_cons ackEA' eq_refl (Forall_nil _)) (TailM_busy _ _ _ _ _ _ _ _ _ _ _ _ _ HT))
@@ -1062,7 +1070,7 @@ Proof.
   intros y (s & lg & c1 & Hc1 & (c2 & rnd & scur & dcur & sdone & ddone & ->) & HI & Hc) Hpos.
   destruct (step_final_m cs p rs fss data cks cf seg clo (tidA cf) sn [x] Hnames Hlook Hm Hck Hacks s HI) as (s' & sb & P & HT).
   rewrite eofq in P.
-  pose proof (RC sm_eof_wm fsz Hrem C_NO_ERROR cks None fsz lg Hpos) as Hsm.
+  pose proof (RC sm_eof_wm fsz Hrem cks None fsz lg Hpos) as Hsm.
   assert (G : dguard eofX' (WMx 0 [] fsz lg) ddone) by (apply bguard; reflexivity).
   destruct (round_n1 fl0 s s' _ _ _ _ _ c1 c2 rnd scur dcur sdone ddone P eq_refl (ff_none 0 c1 ltac:(lia)) (ff1 0) G Hsm eq_refl
               (Forall_cons ackEA' eq_refl (Forall_nil _)) (TailM_busy _ _ _ _ _ _ _ _ _ _ _ _ _ HT))
@@ -1232,7 +1240,7 @@ Proof.
   { eapply srun_cons; [exact (InvAx_busy _ _ HI)|exact P| |apply srun_nil].
     constructor; [reflexivity|]. constructor; [reflexivity|]. apply tilesL_onw. lia. }
   rewrite app_nil_r in Hs.
-  pose proof (RC sm_eof_wm fsz Hrem C_NO_ERROR cks None fsz [] Hpos) as Hsm1.
+  pose proof (RC sm_eof_wm fsz Hrem cks None fsz [] Hpos) as Hsm1.
   pose proof (RA sm_md_we Hrem Hnakd maxn Hmax sn cks fsz (lgEx [])) as Hsm2.
   destruct (drun_tiles (length data) 0 (fs0 x) (evMdx :: lgEx []) ltac:(lia) (le_n _) (look0 x)
               ltac:(apply clean_cons; [reflexivity|reflexivity|apply clean_lgE, clean_nil])) as (fs' & lg' & D & Hl' & Hc').
